@@ -6,6 +6,7 @@ import (
 	"fmt"
 	"os"
 	"path/filepath"
+	"runtime"
 	"sort"
 	"strings"
 	"time"
@@ -570,6 +571,11 @@ func suiteC01(c *ctx) {
 			u := h.users[r.Intn(len(h.users))]
 			if r.Intn(18) == 0 || (h.tmpBroken && r.Intn(4) == 0) {
 				h.toggleTmp()
+			}
+			if r.Intn(6) == 0 {
+				// the processors available to the process change in the middle of a history (a CPU quota is
+				// adjusted, the agent restarts on another host): records and verdicts must not depend on it
+				runtime.GOMAXPROCS([]int{1, 2, 3, 5, runtime.NumCPU()}[r.Intn(5)])
 			}
 			switch x := r.Intn(20); {
 			case x < 5:
